@@ -40,7 +40,7 @@ ANCHORS = ['pfhedge.nn.functional:entropic_risk_measure',
 DECIDING = ["ERM.monotone", "ERM.cash", "ERM.convex", "ERM.bounds", "ERM.a_monotone", "ES.monotone", "ES.cash", "ES.convex", "ES.homogeneous",
             "ES.p_monotone", "ES.bounds", "QCVaR.monotone", "QCVaR.cash", "QCVaR.convex", "QCVaR.bounds", "EntropicLoss.monotone_convex",
             "IsoelasticLoss.monotone_convex"]
-REQUIRED_BRANCHES = ["n=1", "ties", "const", "multi_column", "EntropicLoss.large_exponent"]
+REQUIRED_BRANCHES = ["n=1", "ties", "const", "multi_column", "EntropicLoss.large_exponent", "IsoelasticLoss.small_wealth"]
 
 
 def eps(x):
@@ -196,13 +196,18 @@ def drv_axioms(ctx, k, rng):
               sig=("EL",) + base_sig, trivial=triv, X=Xs, Y=Ys, D=Ds, l=lmb, a=aa, LX=lx, LY=ly, LXD=lm_, LZ=lz)
     ai = float(pick(rng, [1.0, 0.5, 0.1]))
     Li = IsoelasticLoss(ai)
-    Xp, Yp = (X / scale).clamp(-10, 10).abs() + 0.1, (Y / scale).clamp(-10, 10).abs() + 0.1
-    lx, ly, lm_, lz = Li(Xp), Li(Yp), Li(Xp + Ds), Li(lmb * Xp + (1 - lmb) * Yp)
-    sl = (n + 64) * e * 25
+    # wealth of any magnitude the property names (1e-6 .. 1e6): utilities of small positive wealth are where log / power are steep
+    wm = float(10 ** rng.uniform(-6, 3)) if rng.random() < 0.5 else 1.0
+    if wm < 1e-4:
+        ctx.branch("IsoelasticLoss.small_wealth")
+    Xp, Yp = ((X / scale).clamp(-10, 10).abs() + 0.1) * wm, ((Y / scale).clamp(-10, 10).abs() + 0.1) * wm
+    Dw = Ds * wm
+    lx, ly, lm_, lz = Li(Xp), Li(Yp), Li(Xp + Dw), Li(lmb * Xp + (1 - lmb) * Yp)
+    sl = (n + 64) * e * (25 + float(torch.stack([v_.abs().max() for v_ in (lx, ly, lm_, lz)]).max()))
     ok = leq(lm_, lx, sl) and leq(lz, lmb * lx.to(F64) + (1 - lmb) * ly.to(F64), 2 * sl)
     ctx.seen("IsoelasticLoss.monotone_convex")
     ctx.check("IsoelasticLoss.monotone_convex", ok, "monotone_convex", "IsoelasticLoss not monotone decreasing / convex in the P&L",
-              sig=("IL", ai) + base_sig, trivial=triv, X=Xp, Y=Yp, D=Ds, l=lmb, a=ai, LX=lx, LY=ly, LXD=lm_, LZ=lz)
+              sig=("IL", ai) + base_sig, trivial=triv, X=Xp, Y=Yp, D=Dw, l=lmb, a=ai, LX=lx, LY=ly, LXD=lm_, LZ=lz)
     if k < 5:
         ctx.sample({"driver": "axioms", "shape": list(shape), "style": [style, style2], "scale": scale, "a": a, "p": p, "lam": lam,
                     "c": c, "lambda": lmb, "X_head": X.reshape(-1)[:5]})
